@@ -64,6 +64,14 @@ def _check_read(case):
         L = L[::-1]
     elif order == "rot":
         L = L[1:] + L[:1]
+    elif order == "tuple":      # the FORM of the argument: any iterable of (start, end) pairs, also one that can be walked only once
+        L = tuple(L)
+    elif order == "iter":
+        L = iter(list(L))
+    elif order == "gen":
+        L = ((a_, b_) for a_, b_ in list(L))
+    elif order == "lists":
+        L = [list(x) for x in L]
     s = list(SAMPLES)
     gen = audio.AudioGenerator(width, rate)
     rf = None
@@ -76,7 +84,7 @@ def _check_read(case):
         st, fr, _ = call(audio.readFramesAtTimes, af, L if kind == "keep" else None, L if kind == "delete" else None, rf)
     finally:
         af.close()
-    tag = f"readFramesAtTimes width={width} rate={rate} {kind}={L} replace={repl}"
+    tag = f"readFramesAtTimes width={width} rate={rate} {kind}={L if isinstance(L, (list, tuple)) else order + ' over ' + str(ivs)} replace={repl}"
     if st == "exc":
         return 1, "X", None, [Viol("read-raised:" + type(fr).__name__, f"{tag}: {fr!r}")]
     if len(fr) % width:
@@ -404,6 +412,15 @@ def parts(tier):
                     for kind in ("keep", "delete"):
                         for repl in (None, "silence", "sine"):
                             yield (width, rate, ivs, off, kind, repl)
+        # the same intervals handed over as a tuple, as lists, as a one-shot iterator and as a generator
+        for width, rate in combos[:1] + combos[3:4]:
+            for ivs in sets:
+                if not ivs:
+                    continue
+                for kind in ("keep", "delete"):
+                    for repl in (None, "silence"):
+                        for form in ("tuple", "lists", "iter", "gen"):
+                            yield (width, rate, ivs, False, kind, repl, form)
         # the same intervals listed out of time order: the result is still the kept stretches in time order
         for width, rate in combos[:2] + combos[3:4]:
             for ivs in sets:
